@@ -173,7 +173,11 @@ def attributes : Nat → Bytes → List (Bytes × Bytes) → L (List (Bytes × B
                     | none => ill "bad reference in attribute value"
               else ill "attribute value not quoted"
             | [] => ill "attribute without value"
-          | _ => ill "attribute without ="
+          | _ =>
+            -- the name chars are followed at once by a character that is neither white space nor `=` (`b!="1"`):
+            -- what stands in front of the `=` is no Name — clause attribute-name, not attribute-syntax
+            if (b'.drop name.length).head?.any (fun c => !isS c) then ill "attribute name"
+            else ill "attribute without ="
 
 def lowerAscii (b : UInt8) : UInt8 := if 65 ≤ b.toNat && b.toNat ≤ 90 then b + 32 else b
 
@@ -221,7 +225,7 @@ def lexLoop (eol : Bool) : Nat → Bytes → Bool → List Tok → L (List Tok)
               if n == [118, 101, 114, 115, 105, 111, 110] then lexLoop eol fuel rest false (.xmldecl :: acc)
               else ill "XMLDecl without version"
             | .ok _ => ill "XMLDecl"
-            | .error e => .error e
+            | .error _ => ill "XMLDecl"   -- [23] XMLDecl: VersionInfo EncodingDecl? SDDecl? — not the attributes of a tag
           else if target == [120, 109, 108] then ill "XML declaration not at the start"
           else ill "reserved PI target"
         else lexLoop eol fuel rest false (.pi :: acc)
